@@ -2,3 +2,5 @@ import LemoGen.Schedule
 import LemoGen.TxWindow
 import LemoGen.Store
 import LemoGen.Gas
+import LemoGen.Net
+import LemoGen.NetCache
